@@ -75,15 +75,18 @@ func Verif_H17Close() {
 		_ = errors.As(err, &e1) || errors.As(err, &e2)
 		checkQuiet(dir, g0, f0, "after-failed-open")
 		vrt.Cover("h17-failed-open")
-	case 2: // two open/close cycles
-		for round := 0; round < 2; round++ {
+	case 2: // open/close cycles; the last one changes the index bit size (re-bucketing on open)
+		for round := 0; round < 3; round++ {
+			if round == 2 {
+				c.bits = 9
+			}
 			s, err := openBG(dir, c)
 			vrt.Assert(err == nil, "open-no-error")
 			if err != nil {
 				return
 			}
 			s.Start()
-			vrt.Assert(s.Put(keys[round], []byte{byte(round)}) == nil, "put-no-error")
+			vrt.Assert(s.Put(keys[round%2], []byte{byte(round)}) == nil, "put-no-error")
 			vrt.Assert(s.Close() == nil, "close-no-error")
 			checkQuiet(dir, g0, f0, "after-cycle")
 		}
